@@ -207,6 +207,22 @@ def run(report, tier, seed):
                         staged = numpy.asarray(res)
                     if staged.shape != at_once.shape or not numpy.array_equal(staged, at_once):
                         add("staged", f"evaluating {desc} in stages via {rep['args']} at {point} gives {staged.tolist()}, at once {at_once.tolist()}", rep)
+                    if isinstance(res, numpoly.ndpoly):
+                        # second stage by keyword for the ORIGINAL polynomial's names that the first stage left unbound
+                        # (the substituted polynomial keeps them, as the at-once call accepts them), and by position in
+                        # the substituted polynomial's own name order
+                        kw2 = {f"q{v}": point[v] for v in lay["names"] if v not in bound}
+                        kw2.update({nm: point[core.name_index(nm)] for a in bound.values() if isinstance(a, numpoly.ndpoly)
+                                    for nm in a.names if nm in res.names})
+                        pos2 = tuple(point[core.name_index(nm)] for nm in res.names)
+                        for label, st2 in (("keyword-original-names", lambda: res(**kw2)), ("positional", lambda: res(*pos2)),
+                                           ("call-function", lambda: numpoly.call(res, pos2))):
+                            got2 = st2()
+                            if isinstance(got2, numpoly.ndpoly) or numpy.asarray(got2).shape != at_once.shape \
+                                    or not numpy.array_equal(numpy.asarray(got2), at_once):
+                                add("staged", f"second stage ({label}) of {desc} after {rep['args']} at {point} gives "
+                                              f"{got2!r:.200}, at once {at_once.tolist()}", rep)
+                                break
                 except Exception as exc:  # noqa: BLE001
                     add("raise:staged", f"staged evaluation of {desc} raised {type(exc).__name__}: {exc}", rep)
         else:
@@ -224,6 +240,38 @@ def run(report, tier, seed):
                 cargs = core.cseq(coq_arg(a) for a in pos)
                 ckw = core.cseq(f"({core.name_index(kk)}%N, ZNum [::] [:: {core.cz(a)}])" for kk, a in kw.items())
                 cc.add(f"chk_num (zcall_numeric {core.coq_parr(lay)} {cargs} {ckw}) (NErr TypeError)", rep)
+    # ---- polynomials that carry an indeterminate they do not use: it stays an argument through partial evaluation --------
+    for k in range(24 if tier == "quick" else 300):
+        names = tuple(sorted(rng.sample([0, 1, 2, 3, 10], 3)))
+        unused = rng.randrange(3)
+        only = rng.choice([None, (unused + 1) % 3])      # sometimes a single indeterminate is used, the other two are not
+        rows = sorted({tuple(0 if (c == unused or (only is not None and c != only)) else rng.choice([0, 1, 2]) for c in range(3))
+                       for _ in range(rng.randint(2, 4))} | ({tuple(2 if c == only else 0 for c in range(3))} if only is not None else set()))
+        shape = rng.choice([(), (2,), (2, 1)])
+        cols = [numpy.array([rng.choice([-2, -1, 1, 2, 3]) for _ in range(int(numpy.prod(shape)) if shape else 1)]).reshape(shape) for _ in rows]
+        p = numpoly.polynomial_from_attributes(rows, cols, tuple(f"q{v}" for v in names), retain_names=True, retain_coefficients=True)
+        used = [v for c, v in enumerate(names) if c != unused and (only is None or c == only)]
+        first = rng.choice(used)
+        point = {v: rng.choice([-2, -1, 2, 3]) for v in range(13)}
+        fresh = numpoly.symbols(f"q{rng.choice([5, 6])}")
+        arg = rng.choice([point[first], float(point[first]), fresh, fresh + 1] if only is None else [fresh, fresh + 1, 2 * fresh])
+        rep = {"poly": gen.describe(p), "names": names, "first_stage": {f"q{first}": gen.describe(arg) if isinstance(arg, numpoly.ndpoly) else arg},
+               "stream": "unused-indeterminate"}
+        n += 1
+        try:
+            mid = p(**{f"q{first}": arg})
+            inner = arg(**{nm: point[core.name_index(nm)] for nm in arg.names}) if isinstance(arg, numpoly.ndpoly) else arg
+            at_once = numpy.asarray(p(**{f"q{v}": (inner if v == first else point[v]) for v in names}))
+            kw2 = {f"q{v}": point[v] for v in names if v != first}
+            if isinstance(arg, numpoly.ndpoly):
+                kw2.update({nm: point[core.name_index(nm)] for nm in arg.names if isinstance(mid, numpoly.ndpoly) and nm in mid.names})
+            got = mid(**kw2) if isinstance(mid, numpoly.ndpoly) else mid
+            if isinstance(got, numpoly.ndpoly) or not numpy.array_equal(numpy.asarray(got), at_once):
+                add("staged", f"{rep['poly']} with names {names}: second stage {kw2} after {rep['first_stage']} gives {got!r:.160}, "
+                              f"at once {at_once.tolist()}", rep)
+        except Exception as exc:  # noqa: BLE001
+            add("raise:staged", f"staged evaluation of {rep['poly']} (names {names}) after {rep['first_stage']} raised "
+                                f"{type(exc).__name__}: {exc}", rep)
     # ---- narrow coefficient dtypes at large Python ints; tiny coefficients through staged evaluation ---------
     from fractions import Fraction
     extra = 60 if tier == "quick" else 600
